@@ -560,12 +560,16 @@ func runC20(c *Ctx) {
 			after   int
 			oneByte bool
 			err     error
+			once    bool
+			partial bool
 		}
-		readers := []rf{{"never", -1, false, nil}, {"fail@0", 0, false, nil}, {"fail@1", 1, false, nil}, {"fail@8", 8, false, nil}, {"fail@31", 31, false, nil}, {"fail@64", 64, false, nil}, {"EOF@0", 0, false, io.EOF}, {"one-byte-reads", -1, true, nil}, {"one-byte-reads-fail@8", 8, true, nil}}
+		readers := []rf{{"never", -1, false, nil, false, false}, {"fail@0", 0, false, nil, false, false}, {"fail@1", 1, false, nil, false, false}, {"fail@8", 8, false, nil, false, false}, {"fail@31", 31, false, nil, false, false}, {"fail@64", 64, false, nil, false, false}, {"EOF@0", 0, false, io.EOF, false, false}, {"one-byte-reads", -1, true, nil, false, false}, {"one-byte-reads-fail@8", 8, true, nil, false, false},
+			// a glitch: one call returns a few bytes TOGETHER with an error, every later call works again
+			{"bytes+error@4-once", 4, false, nil, true, true}, {"bytes+error@20-once", 20, false, nil, true, true}, {"bytes+EOF@9-once", 9, false, io.ErrUnexpectedEOF, true, true}, {"error@6-once", 6, false, nil, true, false}}
 		for _, k := range c.Keys.Keys {
 			for _, rd := range readers {
 				for _, entry := range []string{"Sign1Message.Sign", "Sign1", "SignMessage.Sign(n=2)", "Countersignature.Sign", "Countersign0", "SignHashEnvelope", "via-crypto.Signer"} {
-					fr := &mon.FaultReader{Src: gen.Entropy, After: rd.after, OneByte: rd.oneByte, Err: rd.err}
+					fr := &mon.FaultReader{Src: gen.Entropy, After: rd.after, OneByte: rd.oneByte, Err: rd.err, Once: rd.once, Partial: rd.partial}
 					in := map[string]any{"entry": entry, "alg": k.Name, "reader": rd.name, "round": round}
 					key := fmt.Sprintf("entropy/%s/%s/%s", entry, k.Name, rd.name)
 					h := cose.Headers{Protected: cose.ProtectedHeader{int64(1): k.Alg}, Unprotected: cose.UnprotectedHeader{}}
@@ -660,7 +664,13 @@ func runC20(c *Ctx) {
 						}
 						continue
 					}
-					// signing reported success: the result must be complete and valid
+					// signing reported success: an entropy failure answered to a multi-byte read is one the
+					// standard library's signing primitives report (io.ReadFull); it must not have been lost
+					if fr.FailedLen > 1 {
+						rec.Violate("error-lost", key, fmt.Sprintf("the entropy source answered a %d-byte read with an error (after %d bytes) and the signing call returned nil", fr.FailedLen, fr.Read_), in)
+						continue
+					}
+					// the result must be complete and valid
 					if marshal != nil {
 						b, e := marshal()
 						if e != nil {
@@ -689,7 +699,7 @@ func runC20(c *Ctx) {
 			err  error
 		}{
 			{"empty-nil", nil, nil}, {"empty-zero", []byte{}, nil}, {"error", nil, mon.ErrInjected}, {"error+bytes", mon.FixedSig, mon.ErrInjected},
-			{"error-temporary", nil, temporaryErr{}}, {"eof+bytes", mon.FixedSig[:7], io.EOF},
+			{"error-temporary", nil, temporaryErr{}}, {"eof+bytes", mon.FixedSig[:7], io.EOF}, {"panic", nil, errPanicMarker},
 		}
 		parent := &cose.Sign1Message{Headers: cose.Headers{Protected: cose.ProtectedHeader{int64(1): cose.AlgorithmES256}}, Payload: []byte("parent"), Signature: mon.FixedSig}
 		for _, k := range kr.Keys {
@@ -738,6 +748,20 @@ func runC20(c *Ctx) {
 					key := fmt.Sprintf("opaque-signer/%s/%s/%s", k.Name, bh.name, name)
 					in := map[string]any{"cell": key}
 					var r res
+					if bh.err == errPanicMarker {
+						// a key that crashes: the panic reaches the caller or becomes an error; never success
+						panicked, _, _ := mon.Try(func() { r = run() })
+						rec.Eval(1)
+						rec.Event("opaque-signer-cases")
+						rec.Class(fmt.Sprintf("%s/propagated=%v", key, panicked))
+						if !panicked && r.err == nil {
+							rec.Violate("error-lost", key, "the opaque key panicked and the signing call returned nil", in)
+						}
+						if !panicked && r.err != nil && (len(r.bytes) > 0 || len(r.stored) > 0) {
+							rec.Violate("bytes-with-error", key, "the signing call failed but left signature bytes", in)
+						}
+						continue
+					}
 					if guard(rec, name, in, func() { r = run() }) {
 						continue
 					}
@@ -954,6 +978,11 @@ type opaqueSigner struct {
 
 func (o *opaqueSigner) Public() crypto.PublicKey { return o.pub }
 func (o *opaqueSigner) Sign(io.Reader, []byte, crypto.SignerOpts) ([]byte, error) {
+	if o.err == errPanicMarker {
+		panic("key backend crashed")
+	}
 	return o.out, o.err
 }
+
+var errPanicMarker = errors.New("panic marker")
 
